@@ -18,6 +18,9 @@ from p11mc import world as W, fixtures as F
 from p11mc.p11 import Out, tpl, mech
 
 
+VARIANTS = (["ossl-asan"], ["ossl-asan", "ossl-tsan"])
+
+
 class C18(CheckBase):
     ID = "C18"
 
@@ -487,7 +490,12 @@ def _tsan_task(task):
                     except OSError:
                         continue
                     for fa, fb, ex in parse_tsan(t):
-                        out["races"].setdefault("C18|data-race|%s|%s" % (fa, fb), {"body": name, "schedule": list(pref), "report": ex})
+                        # signature = the two CLASSES whose methods race.  (Which of several racing accesses to one object the detector reports varies
+                        # from run to run - its shadow memory keeps four accesses per word and evicts at random -, the classes involved do not.)
+                        ca, cb = sorted((fa.split("::")[0], fb.split("::")[0]))
+                        d_ = out["races"].setdefault("C18|data-race|%s|%s" % (ca, cb), {"body": name, "schedule": list(pref), "report": ex, "function_pairs": []})
+                        if [fa, fb] not in d_["function_pairs"] and len(d_["function_pairs"]) < 12:
+                            d_["function_pairs"].append([fa, fb])
                 return r
             for lf in glob.glob(logs):
                 os.unlink(lf)
@@ -638,15 +646,19 @@ def main(tier):
                 rep.harness_errors.append("violation %s did not reproduce on replaying its schedule" % sig)
     finally:
         ex.close()
+    tsan_cov = None
+    if not quick or os.environ.get("C18_TSAN"):
+        tsan_cov = tsan_pass(rep, quick)
     total = sum(b["schedules"] for b in per_body.values())
     if total < 50:
         rep.harness_errors.append("vacuous: %d schedules" % total)
     rep.coverage = {"states": total, "transitions": sum(b["schedules"] * max(b["scheduling_points"], 1) for b in per_body.values()), "traces_validated_against_impl": total,
-                    "samples": [dict(body=k, distinct_outcomes=len(outcome_sets.get(k, ())), **v) for k, v in sorted(per_body.items())], "exhaustive": complete, "variant": variant, "waves": wave_log, "sequential_reference_runs": cnt.get("sequential_runs", 0),
+                    "samples": [dict(body=k, distinct_outcomes=len(outcome_sets.get(k, ())), **v) for k, v in sorted(per_body.items())], "exhaustive": complete, "variant": variant, "waves": wave_log, "race_detector_side_pass": tsan_cov, "sequential_reference_runs": cnt.get("sequential_runs", 0),
                     "rule": "states = schedules executed on the real library (each in a fresh process image, own directory copy); for every body ALL schedules with at most the stated "
                             "number of preemptions at LockMutex / thread start / thread end points; transitions = schedules x scheduling points of the default run; distinct outcomes per body "
                             "are listed in samples (one outcome from many schedules means nothing collided)"}
-    rep.assumptions = ["scheduling points are the application mutex callbacks, thread start and thread end: unsynchronised accesses between two lock operations are not interleaved (no TSan side pass in this version)",
+    rep.assumptions = ["scheduling points are the application mutex callbacks, thread start and thread end: unsynchronised accesses between two lock operations are not interleaved; the thorough tier "
+                       "adds a ThreadSanitizer pass over every schedule with at most one preemption (scheduler hand-overs hidden from the detector, library locks announced to it) that reports such accesses",
                        "2-3 threads, 1-3 calls each; file store; CKF_OS_LOCKING_OK uses the same lock sites with pthread mutexes and is not explored"]
     return rep.finish()
 
@@ -662,6 +674,14 @@ def replay(rec):
     try:
         template = core.build_template(check, rec["variant"], "file", root)
         core._worker_init(check, rec["variant"], "file", template, root)
+        if rec["task"][0] == "tsan":
+            r = _tsan_task((rec["task"][1], 3000))
+            core._W["ctx"].stop_shell()
+            print("body:", rec["task"][1], "\nrecorded:", rec["signature"], "\nobserved:", sorted(r["races"]))
+            if rec["signature"] in r["races"]:
+                print("VIOLATION property=C18 replay=%s" % sys.argv[1])
+                return 1
+            return 0
         r = _replay_one(tuple(rec["task"]))
         core._W["ctx"].stop_shell()
         sigs = [v["signature"] for v in r["viol"]]
